@@ -81,6 +81,11 @@ func (m *c05Monitor) snapshot(r *Run, ctx sdk.Context) *c05Snapshot {
 				p = priceInfo{val: pr.Value.BigInt(), dec: int64(pr.Decimal)}
 			}
 		})
+		// the decimals of a token's price are part of the token's configuration, not of a
+		// round: every accepted submission carries them, so the latest price must too
+		if want, ok := m.tokenDecimals(r, ctx, a); ok && p.val != nil && p.dec != want && r.Viol == nil {
+			r.Violate(m.Name(), "latest-price-carries-the-token's-price-decimals", "decimals", fmt.Sprintf("height %d: latest price of %s is %v with %d decimals, the token is configured with %d", ctx.BlockHeight(), a, p.val, p.dec, want))
+		}
 		s.prices[a] = p
 		if info, err := app.AssetsKeeper.GetStakingAssetInfo(ctx, a); err == nil {
 			s.decimals[a] = int64(info.AssetBasicInfo.Decimals)
@@ -98,6 +103,16 @@ func (m *c05Monitor) snapshot(r *Run, ctx sdk.Context) *c05Snapshot {
 		s.minSelf = sdkmath.LegacyZeroDec()
 	}
 	return s
+}
+
+// tokenDecimals returns the configured price decimals of the oracle token that prices an asset.
+func (m *c05Monitor) tokenDecimals(r *Run, ctx sdk.Context, assetID string) (int64, bool) {
+	for _, t := range r.Node.App.OracleKeeper.GetParams(ctx).Tokens {
+		if t != nil && strings.Contains(t.AssetID, assetID) {
+			return int64(t.Decimal), true
+		}
+	}
+	return 0, false
 }
 
 func (m *c05Monitor) AfterInit(r *Run) { m.prev = m.snapshot(r, r.Node.DeliverCtx(r.Chain)) }
